@@ -426,6 +426,10 @@ func NewManager(
 	if err := m.LoadCache(); err != nil {
 		return nil, fmt.Errorf("failed to load cache: %w", err)
 	}
+	// blocks whose blobs were accepted or seen before the last stop (their marks have just come back with the caches)
+	// are checked as soon as the inclusion loop runs: nothing else would ask for them before the next submission or
+	// DA sighting
+	m.sendNonBlockingSignalToDAIncluderCh()
 
 	return m, nil
 }
